@@ -88,6 +88,8 @@ func (s *Sched) Apply(t Trans) StepRec {
 		rec.Q = child.ID
 		s.start(child, op.fn)
 		s.resume(g, result{})
+	case "start":
+		s.resume(g, result{})
 	case "add":
 		rec.Wg = op.Wg.id
 		rec.Val, rec.HasV = Val{Kind: 'i', I: int64(op.N)}, true
